@@ -10,8 +10,12 @@
 using namespace rkcommon;
 using namespace rkcommon::math;
 
-static void viol(const std::string &sig, const std::string &replay, const std::string &detail)
+// for calls that are not the first one in their process: "|<relation to the earlier calls>"
+static std::string g_ctx;
+
+static void viol(const std::string &sig0, const std::string &replay, const std::string &detail)
 {
+  const std::string sig = sig0 + g_ctx;
   vr::violation(sig, replay, detail);
   if (vr::replaying())
     printf("VIOLATED %s :: %s\n", sig.c_str(), detail.c_str());
@@ -149,15 +153,23 @@ static void fill_block(unsigned char *block, size_t n, size_t pad, int k, int t)
   }
 }
 
+static std::string death_class(const std::string &died)
+{
+  // a read/write past a block is reported by ASan as heap-buffer-overflow, as SEGV when the block
+  // happens to end at the end of the mapped heap region, or as unknown-crash when the access
+  // straddles that end: one class for all
+  return (died.find("heap-buffer-overflow") != std::string::npos || died.find("SEGV") != std::string::npos || died.find("unknown-crash") != std::string::npos)
+      ? "memory access outside the block it was given (asan:heap-buffer-overflow/SEGV)"
+      : died;
+}
+
+static void judge_case(int f, int w, int h, int k, int t, int placement, const std::string &replay, const std::string &file);
+
 static void run_case(int f, int w, int h, int k, int t, int placement, const std::string &replay, const std::string &file)
 {
   const Format &F = FORMATS[f];
   const size_t n = (size_t)w * h * F.pix_bytes;
   const size_t pad = placement ? 64 : 0;
-  // the oracle's copy of the input (never handed to the writer)
-  unsigned char *block = (unsigned char *)malloc(n + 2 * pad);
-  unsigned char *in = block + pad;
-  fill_block(block, n, pad, k, t);
   unlink(file.c_str());
   const std::string fn = F.name;
   char dims[64];
@@ -177,24 +189,34 @@ static void run_case(int f, int w, int h, int k, int t, int placement, const std
         free(blk);
       },
       file + ".err", &headline);
-  vr::stat("states");
-  vr::stat("traces");
   if (!died.empty()) {
+    vr::stat("states");
+    vr::stat("traces");
     vr::stat("crashed_cases");
     vr::outcome(fn + "|died|" + died);
-    // a read past the block is reported by ASan as heap-buffer-overflow, or as SEGV when the block
-    // happens to end at the end of the mapped heap region: one class for both
-    // (or as unknown-crash when the access straddles that end)
-    std::string cls = (died.find("heap-buffer-overflow") != std::string::npos || died.find("SEGV") != std::string::npos || died.find("unknown-crash") != std::string::npos)
-        ? "memory access outside the block it was given (asan:heap-buffer-overflow/SEGV)"
-        : died;
-    viol(fn + (placement ? "|padded buffer|" : "|exact-size buffer|") + cls, replay, std::string(dims) + ": the writer died: " + died + " :: " + headline);
+    viol(fn + (placement ? "|padded buffer|" : "|exact-size buffer|") + death_class(died), replay, std::string(dims) + ": the writer died: " + died + " :: " + headline);
     if (vr::replaying())
       printf("%s(%s) fill k=%d t=%d placement %s: writer died (%s); want a file holding the input\n", F.name, dims, k, t, placement ? "padded" : "exact", died.c_str());
     unlink(file.c_str());
-    free(block);
     return;
   }
+  judge_case(f, w, h, k, t, placement, replay, file);
+}
+
+// decodes the file and compares it with the oracle's own copy of the input
+static void judge_case(int f, int w, int h, int k, int t, int placement, const std::string &replay, const std::string &file)
+{
+  const Format &F = FORMATS[f];
+  const size_t n = (size_t)w * h * F.pix_bytes;
+  const size_t pad = placement ? 64 : 0;
+  unsigned char *block = (unsigned char *)malloc(n + 2 * pad);
+  unsigned char *in = block + pad;
+  fill_block(block, n, pad, k, t);
+  const std::string fn = F.name;
+  char dims[64];
+  snprintf(dims, sizeof dims, "%dx%d", w, h);
+  vr::stat("states");
+  vr::stat("traces");
   std::string s;
   if (!c20::read_file(file, s)) {
     viol(fn + "|no file written", replay, dims);
@@ -322,6 +344,124 @@ static void run_case(int f, int w, int h, int k, int t, int placement, const std
   free(block);
 }
 
+// ------------------------------------------------------------------ several calls in ONE process
+// State a writer keeps between calls (row buffers, caches) is only visible when calls follow each
+// other in one process: all calls of a sequence run in one forked child, on the child's main thread,
+// each on its own exact-size (or padded) block and into its own file; every file is decoded.
+struct Call
+{
+  int f, w, h, k, t, pl;
+};
+
+static std::string seq_text(const std::vector<Call> &cs)
+{
+  std::string s = "seq:";
+  for (size_t i = 0; i < cs.size(); i++) {
+    char b[96];
+    snprintf(b, sizeof b, "%s%d,%d,%d,%d,%d,%d", i ? ";" : "", cs[i].f, cs[i].w, cs[i].h, cs[i].k, cs[i].t, cs[i].pl);
+    s += b;
+  }
+  return s;
+}
+
+// relation of call i to the earlier calls of the sequence (the signature's equivalence class)
+static std::string relation(const std::vector<Call> &cs, size_t i)
+{
+  if (i == 0)
+    return "";
+  bool same = false, wider = false, more_rows = false;
+  for (size_t j = 0; j < i; j++)
+    if (cs[j].f == cs[i].f) {
+      same = true;
+      // "wider than the first call of this writer" is what a first-use-sized buffer cares about
+      if (!wider && !more_rows) {
+        wider = cs[i].w > cs[j].w;
+        more_rows = cs[i].h > cs[j].h;
+      }
+      break;
+    }
+  if (!same)
+    return "|later call in one process, after other writers only";
+  return std::string("|later call of the same writer in one process, ") + (wider ? "wider than its first call" : more_rows ? "not wider, more rows than its first call" : "not larger than its first call");
+}
+
+static void run_seq(const std::vector<Call> &cs, const std::string &replay, const std::string &filebase)
+{
+  const int n = (int)cs.size();
+  std::vector<std::string> files(n);
+  for (int i = 0; i < n; i++) {
+    files[i] = filebase + "." + std::to_string(i);
+    unlink(files[i].c_str());
+  }
+  const std::string progress = filebase + ".progress";
+  unlink(progress.c_str());
+  std::string headline;
+  std::string died = c20::run_forked(
+      [&]() {
+        for (int i = 0; i < n; i++) {
+          const Call &c = cs[i];
+          FILE *pf = fopen(progress.c_str(), "w");
+          if (pf) {
+            fprintf(pf, "%d\n", i);
+            fclose(pf);
+          }
+          const size_t bytes = (size_t)c.w * c.h * FORMATS[c.f].pix_bytes, pad = c.pl ? 64 : 0;
+          unsigned char *blk = (unsigned char *)malloc(bytes + 2 * pad);
+          fill_block(blk, bytes, pad, c.k, c.t);
+          try {
+            call_writer(c.f, files[i], c.w, c.h, blk + pad);
+          } catch (const std::exception &e) {
+            fprintf(stderr, "exception: %s\n", e.what());
+            _exit(3);
+          }
+          free(blk);
+        }
+      },
+      filebase + ".err", &headline);
+  int died_at = n;
+  if (!died.empty()) {
+    std::string ptxt;
+    c20::read_file(progress, ptxt);
+    died_at = ptxt.empty() ? 0 : atoi(ptxt.c_str());
+  }
+  vr::stat("sequences");
+  for (int i = 0; i < n; i++) {
+    const Call &c = cs[i];
+    g_ctx = relation(cs, i);
+    if (vr::replaying())
+      printf("call %d of %d%s:\n", i + 1, n, g_ctx.c_str());
+    if (i < died_at) {
+      judge_case(c.f, c.w, c.h, c.k, c.t, c.pl, replay, files[i]);
+    } else if (i == died_at) {
+      vr::stat("states");
+      vr::stat("traces");
+      vr::stat("crashed_cases");
+      vr::outcome(std::string(FORMATS[c.f].name) + "|died|" + died);
+      char d[400];
+      snprintf(d, sizeof d, "call %d of %d (%s %dx%d): the writer died: %s :: %s", i + 1, n, FORMATS[c.f].name, c.w, c.h, died.c_str(), headline.c_str());
+      viol(std::string(FORMATS[c.f].name) + (c.pl ? "|padded buffer|" : "|exact-size buffer|") + death_class(died), replay, d);
+      if (vr::replaying())
+        printf("%s\n", d);
+    }  // later calls never ran
+    unlink(files[i].c_str());
+  }
+  g_ctx.clear();
+  unlink(progress.c_str());
+}
+
+static bool parse_seq(const std::string &arg, std::vector<Call> &cs)
+{
+  std::stringstream ss(arg);
+  std::string item;
+  while (std::getline(ss, item, ';')) {
+    Call c;
+    if (sscanf(item.c_str(), "%d,%d,%d,%d,%d,%d", &c.f, &c.w, &c.h, &c.k, &c.t, &c.pl) != 6 || c.f < 0 || c.f >= NFMT || c.w < 1 || c.h < 1)
+      return false;
+    cs.push_back(c);
+  }
+  return !cs.empty();
+}
+
 static std::string replay_text(int f, int w, int h, int k, int t, int placement)
 {
   char b[96];
@@ -334,6 +474,17 @@ int main(int argc, char **argv)
   vr::init(argc, argv);
   g_dir = c20::make_dir();
   if (vr::replaying()) {
+    if (vr::S().replay.compare(0, 4, "seq:") == 0) {
+      std::vector<Call> cs;
+      if (!parse_seq(vr::S().replay.substr(4), cs)) {
+        printf("malformed replay string\n");
+        return 2;
+      }
+      run_seq(cs, vr::S().replay, g_dir + "/replay.seq");
+      c20::rm_dir(g_dir);
+      vr::flush();
+      return vr::S().viols.empty() ? 0 : 1;
+    }
     int f, w, h, k, t, pl;
     if (sscanf(vr::S().replay.c_str(), "img:%d,%d,%d,%d,%d,%d", &f, &w, &h, &k, &t, &pl) != 6 || f < 0 || f >= NFMT || w < 1 || h < 1) {
       printf("malformed replay string\n");
@@ -391,6 +542,62 @@ int main(int argc, char **argv)
             }
     });
     vr::sample("wide and tall images: one side in {5,17,255,256,257,1023,1024,1025,2047,2049,4097}, the other in 1..2 (thorough 1..3), every writer, both buffer placements", "wide");
+  }
+  // sequences of calls in one process (state carried between calls)
+  {
+    static const int SZ[7][2] = {{1, 1}, {2, 1}, {4, 1}, {1, 3}, {3, 2}, {4, 4}, {17, 2}};
+    static const int MIX[3][3][2] = {{{2, 2}, {4, 3}, {5, 3}}, {{4, 3}, {2, 2}, {4, 3}}, {{3, 1}, {3, 1}, {3, 1}}};
+    std::vector<std::vector<Call>> seqs;
+    auto mk = [&](int f, const int *wh, int i, int pl) {
+      Call c;
+      c.f = f;
+      c.w = wh[0];
+      c.h = wh[1];
+      c.k = 37;
+      c.t = (int)((seqs.size() * 37 + i * 91 + 5) % 256);
+      c.pl = pl;
+      return c;
+    };
+    const int len = vr::thorough() ? 3 : 2;
+    for (int pl = 0; pl < 2; pl++) {
+      // the same writer with every ordered pair (thorough: also every ordered triple) of 7 sizes
+      for (int f = 0; f < NFMT; f++)
+        for (int a = 0; a < 7; a++)
+          for (int b = 0; b < 7; b++) {
+            std::vector<Call> cs;
+            cs.push_back(mk(f, SZ[a], 0, pl));
+            cs.push_back(mk(f, SZ[b], 1, pl));
+            seqs.push_back(cs);
+            for (int c = 0; c < 7 && len == 3; c++) {
+              std::vector<Call> cs3 = cs;
+              cs3.push_back(mk(f, SZ[c], 2, pl));
+              seqs.push_back(cs3);
+            }
+          }
+      // two different writers after each other (thorough: f1, f2, f1 again)
+      for (int f1 = 0; f1 < NFMT; f1++)
+        for (int f2 = 0; f2 < NFMT; f2++)
+          for (int m = 0; m < 3 && f1 != f2; m++) {
+            std::vector<Call> cs;
+            cs.push_back(mk(f1, MIX[m][0], 0, pl));
+            cs.push_back(mk(f2, MIX[m][1], 1, pl));
+            if (len == 3)
+              cs.push_back(mk(f1, MIX[m][2], 2, pl));
+            seqs.push_back(cs);
+          }
+    }
+    const int nsh = 32;
+    vr::run_sharded(nsh, [&](int shard, long long resume_after) {
+      std::string filebase = g_dir + "/seq-" + std::to_string(shard);
+      for (size_t i = shard; i < seqs.size(); i += nsh) {
+        if ((long long)i <= resume_after)
+          continue;
+        std::string r = seq_text(seqs[i]);
+        vr::begin_case((long long)i, "writer call sequence|harness decoder", r);
+        run_seq(seqs[i], r, filebase);
+      }
+    });
+    vr::sample("call sequences in one process, e.g. " + seq_text(seqs[seqs.size() / 3]) + "  (" + std::to_string(seqs.size()) + " sequences of up to " + std::to_string(len) + " calls)", "seq");
   }
   c20::rm_dir(g_dir);
   return vr::finish();
